@@ -17,7 +17,8 @@ import hv
 from hv import Case
 
 SPEC = {
-    "lean_modules": ["Honeycomb.Props.C16", "Honeycomb.Props.C16Cross", "Honeycomb.Props.C16Clip", "Honeycomb.Props.C16Insert", "Honeycomb.Props.C16Grid"],
+    "lean_modules": ["Honeycomb.Props.C16", "Honeycomb.Props.C16Cross", "Honeycomb.Props.C16Clip", "Honeycomb.Props.C16Insert", "Honeycomb.Props.C16Grid", "Honeycomb.Props.C16Edges",
+                     "Honeycomb.Props.C16EdgeInsert"],
     "required_theorems": ["C16_orientation_rejection_iff", "C16_orientation_accepts_iff_nodup", "C16_closed_loop_accepted",
                           "C16_repeated_origin_rejected", "C16_repeated_endpoint_rejected", "C16_grid_margins", "C16_grid_tight",
                           "C16_crossings_sound", "C16_crossings_on_grid_lines", "C16_crossings_complete", "C16_crossings_sorted", "C16_crossings_count", "C16_metadata_order", "C16_metadata_same_intersections", "C16_metadata_spec",
@@ -26,7 +27,10 @@ SPEC = {
                           "C16_intersection_ids_distinct", "C16_intersection_darts_spec", "C16_intersection_darts_distinct",
                           "C16_unwritten_slot_null", "C16_insert_edge_spec",
                           "C16_shift_lt_half", "C16_on_line_for_one_shift", "C16_shift_loop_terminates", "C16_shift_loop_exit",
-                          "C16_no_vertex_on_grid_corner", "C17_no_vertex_on_grid_line", "C16_deleteDarts_spec", "C16_deleteDarts_order_independent",
+                          "C16_no_vertex_on_grid_corner", "C17_no_vertex_on_grid_line",
+                          "C16_walk_edge_spec", "C16_edge_of_key_spec", "C16_edge_data_spec", "C16_edge_data_order_independent",
+                          "C16_buildBaseEdge_spec", "C16_markBoundary_spec", "C16_insertOneEdge_inv", "C16_insert_edges_inv",
+                          "C16_pipeline_clip_hyps", "C16_pipeline_clip_WF", "C16_deleteDarts_spec", "C16_deleteDarts_order_independent",
                           "C16_clip_spec", "C16_clip_WF", "C16_clip_order_independent", "C16_clipLeft_spec", "C16_clipRight_spec",
                           "C16_between_crossings_one_cell"],
     "trusted_base": [
@@ -1054,9 +1058,147 @@ def steps23_run(raw, prefix):
             "samples": [{"case": cases[0].cid, "input": cases[0].lines, "impl_output": [x[:300] for x in gi[0][1]]}] if cases and gi else [], "notes": notes}
 
 
+# ---- the whole pipeline, step by step (hooks segments / intersection_data / intersection_darts / edge_data / insert_edges) ----
+
+def grid_beta2(nx, ny, d):
+    """beta2 of dart d of the fresh nx x ny grid (cell (x, y): darts 1 + 4(x + nx y) + {0 bottom, 1 right, 2 top, 3 left})"""
+    c, k = divmod(d - 1, 4)
+    x, y = c % nx, c // nx
+    if k == 0:
+        return 0 if y == 0 else 1 + 4 * (x + nx * (y - 1)) + 2
+    if k == 1:
+        return 0 if x == nx - 1 else 1 + 4 * (x + 1 + nx * y) + 3
+    if k == 2:
+        return 0 if y == ny - 1 else 1 + 4 * (x + nx * (y + 1))
+    return 0 if x == 0 else 1 + 4 * (x - 1 + nx * y) + 1
+
+
+def mesh_canon(s, anchors=False):
+    """a snapshot up to the numbering of its darts: every in-use dart as (origin, destination, origin of its predecessor,
+    2-free?, [kind of the vertex anchor]) — directed sides are unique in these meshes"""
+    m = gg.Mesh(s)
+    out = set()
+    for d in m.used:
+        va = None
+        if anchors and "a6" in s["a"]:
+            t = s["a"]["a6"][m.vid[d]]
+            va = None if t == "none" else int(t) % 4
+        out.add((m.P[d], m.P[m.b1[d]] if m.b1[d] else None, m.P[m.b0[d]] if m.b0[d] else None, m.b2[d] == 0, va))
+    return out, len(m.used)
+
+
+def pipeline5_tie(pairs, capture, prefix):
+    """steps 1-5 (+ clip, + classify for capture), hook by hook on the implementation (`gpipe`: every intermediate datum
+    dumped) and step by step on the model (`gseg`, `gids`, `gedges`, `gins` with the HashMap orders read off the
+    implementation's data): segments + slots, dart vector and map after insertion, edge data (as a set), and the final
+    `wf` / `snap` (after clip / classify too) as IDENTICAL TEXT; then the map of the end-to-end call `grisubal|capture <clip>`
+    must be the step-by-step one up to the numbering of the darts"""
+    cmd = "capture" if capture else "grisubal"
+    icases, metas = [], []
+    for k, (g, segs) in enumerate(pairs):
+        ox, oy, nx, ny = g.grid()
+        clip = ("none", "left", "right")[k % 3]
+        head = " ".join(gg.rs(q) for q in (g.cell[0], g.cell[1], ox, oy)) + f" {nx} {ny}"
+        poi = sorted(g.poi_ids())
+        geo = f"{len(g.verts)} " + " ".join(f"{gg.rs(x)} {gg.rs(y)}" for x, y in g.verts) + f" {len(segs)} " + " ".join(f"{a} {b}" for a, b in segs) + \
+            f" {len(poi)}" + "".join(f" {p}" for p in poi)
+        tail = ["wf", "snap"] + ([f"clip {clip}", "wf", "snap"] if clip != "none" else []) + (["classify", "snap"] if capture else [])
+        icases.append(Case(f"{prefix}-{k}", [f"gpipe {int(capture)} {head} {geo}"] + tail + [g.line(cmd, clip, segs=segs), "wf", "snap"]))
+        metas.append((g, segs, clip, head, geo, tail, (ox, oy, nx, ny)))
+    rc, out = hv.run_bin(hv.HCIMPL, hv.render(icases))
+    gi = hv.split_outputs(out)
+    stats = {"cases": len(icases), "lines": 0, "disagreements": 0, "oracle_failures": 0, "impl_outcomes": {}, "ops": {"gpipe": len(icases)},
+             "distinct_nontrivial": 0, "exhaustive": False}
+    violations, distinct, mcases, keep = [], set(), [], []
+    nedges = npoi = ncorner = 0
+
+    def viol(kind, c, what, li, lm=None):
+        if sum(1 for v in violations if v["kind"] == kind) < 5:
+            v = {"kind": kind, "found_input": kind == "oracle", "sig": "gpipe", "what": f"grisubal pipeline, case {c.cid}: {what}",
+                 "replay": {"case": c.cid, "input_lines": c.lines, "impl_output": [x[:400] for x in li],
+                            "theorem_or_correspondence": "steps 1-5 of grisubal (Model/Grisubal.lean, Model/GrisubalInsert.lean) vs the hooks of grisubal::verif"}}
+            if kind == "oracle":
+                v.update({"finding": None, "tags": ["pipeline"], "replay": dict(v["replay"], oracle_failure=what, replay_cmd=f"printf '%s\\n' <input_lines> | {hv.HCIMPL_PATH}")})
+            if lm is not None:
+                v["replay"]["model_output"] = [x[:400] for x in lm]
+            violations.append(v)
+
+    for k, c in enumerate(icases):
+        g, segs, clip, head, geo, tail, (ox, oy, nx, ny) = metas[k]
+        li = gi[k][1] if k < len(gi) else ["<missing>"]
+        stats["lines"] += len(li)
+        distinct.add("\n".join(li))
+        if not li or not li[0].startswith("ok ") or len(li) != 1 + len(tail) + 3:
+            stats["oracle_failures"] += 1
+            viol("oracle", c, f"the hooks did not run through: {li[:1]}", li)
+            continue
+        seg_s, slot_s, ids_s, edges_s = [x.strip() for x in li[0][3:].split("|")]
+        slots = [x.split() for x in slot_s.split(";") if x.strip()]
+        ids = [int(x) for x in ids_s.split()]
+        per = {}
+        for (d, t), r in zip(slots, ids):
+            if t != "nan":
+                d = int(d)
+                b2 = grid_beta2(nx, ny, d)
+                e = b2 if b2 and b2 < d else d
+                per[e] = min(per.get(e, r), r)
+        keys = sorted(per, key=lambda e: per[e])
+        edges = [x.strip() for x in edges_s.split(";") if x.strip()]
+        nedges += len(edges)
+        npoi += sum(int(e.split()[1]) for e in edges)
+        ncorner += seg_s.count("C") // 2
+        gx = head.split()
+        mlines = [f"grid 2 0 0 ncl {gx[2]} {gx[3]} {gx[4]} {gx[5]} {gx[0]} {gx[1]}"] + (["ancinit"] if capture else []) + ["bndinit", f"gseg {head} {geo}",
+                  f"gids {len(keys)} " + "".join(f"{e} " for e in keys) + f"{len(slots)}" + "".join(f" {d} {t}" for d, t in slots),
+                  f"gedges {len(g.verts)} " + " ".join(f"{gg.rs(x)} {gg.rs(y)}" for x, y in g.verts) + f" {len(seg_s.split())} {seg_s} {len(ids)}" + "".join(f" {i}" for i in ids),
+                  f"gins {len(edges)} " + " ".join(edges)] + tail
+        mcases.append(Case(c.cid, mlines))
+        keep.append((k, c, li, seg_s, slot_s, ids_s, edges, len(mlines) - len(tail)))
+        # end-to-end vs step by step, up to renumbering (implementation only)
+        e2e = li[1 + len(tail):]
+        step_snap = li[len(tail) - (2 if capture else 0)]
+        if e2e[0] != "ok" or e2e[1] != "wf true true true" or not e2e[2].startswith("snap") or not step_snap.startswith("snap"):
+            stats["oracle_failures"] += 1
+            viol("oracle", c, f"the end-to-end call answered {e2e[:2]}", li)
+        else:
+            a, na = mesh_canon(gg.parse_snap(step_snap), capture)
+            b, nb = mesh_canon(gg.parse_snap(e2e[2]), capture)
+            if a != b or na != nb:
+                stats["oracle_failures"] += 1
+                viol("oracle", c, f"the map of `{cmd} {clip}` is not the hook-by-hook map up to renumbering ({na} vs {nb} darts, {len(a ^ b)} sides differ)", li)
+    rc, outm = hv.run_bin(hv.HCMODEL, hv.render(mcases))
+    gm = hv.split_outputs(outm)
+    for j, (k, c, li, seg_s, slot_s, ids_s, edges, nhead) in enumerate(keep):
+        lm = gm[j][1] if j < len(gm) else ["<missing>"]
+        tail_i = [canon_clip(x) for x in li[1:1 + len(lm) - nhead]]
+        tail_m = [canon_clip(x) for x in lm[nhead:]]
+        at = nhead - 4
+        bad = None
+        if len(lm) < nhead:
+            bad = f"model transcript too short: {lm[-1:]}"
+        elif lm[at] != f"ok {seg_s} | {slot_s}":
+            bad = f"step 1: impl={seg_s[:150]} | {slot_s[:150]!r} model={lm[at][:300]!r}"
+        elif lm[at + 1] != ("ok " + ids_s).strip():
+            bad = f"steps 2-3: impl ids={ids_s[:200]!r} model={lm[at + 1][:200]!r}"
+        elif sorted(x.strip() for x in lm[at + 2][2:].split(";") if x.strip()) != sorted(edges):
+            bad = f"step 4: impl edges={sorted(edges)[:4]} model={lm[at + 2][:300]!r}"
+        elif lm[at + 3] != "ok":
+            bad = f"step 5: model answered {lm[at + 3]!r}"
+        elif tail_i != tail_m:
+            jj = next((q for q, (a, b) in enumerate(zip(tail_i, tail_m)) if a != b), min(len(tail_i), len(tail_m)))
+            bad = f"after step 5 (line {jj} of the tail {metas[k][5]}): impl={tail_i[jj][:200] if jj < len(tail_i) else None!r} model={tail_m[jj][:200] if jj < len(tail_m) else None!r}"
+        if bad:
+            stats["disagreements"] += 1
+            viol("correspondence", icases[k], bad, li, lm)
+    stats["distinct_nontrivial"] = len(distinct)
+    notes = [f"pipeline tie ({cmd}, {prefix}): {len(icases)} geometries, {nedges} new edges with {npoi} intermediate points of interest, {ncorner} corner "
+             f"intersections; clips none/left/right in turn" + ("; classify after the clip" if capture else "")]
+    return {"stats": stats, "violations": violations, "samples": [{"case": icases[0].cid, "input": [x[:300] for x in icases[0].lines], "impl_output": [x[:300] for x in gi[0][1][:3]]}] if icases and gi else [], "notes": notes}
+
+
 # ---- boundary segments through grid corners (outside general position, handled by the kernel: IntersecCorner) ----------
 
-def corner_geometry(rng):
+def corner_geometry(rng, want_corner=True):
     """exact family: closed polygon of 3-6 edges whose steps are (cell size) x ({0} u {2^a}) in each direction, vertices at
     cell centres-ish offsets so that no vertex lies on a grid line (no origin shift), at least one edge passing through a
     grid corner strictly inside it"""
@@ -1091,8 +1233,8 @@ def corner_geometry(rng):
         ox, oy, nx, ny = g.grid()
         if any(((x - ox) / cx).denominator == 1 or ((y - oy) / cy).denominator == 1 for x, y in g.verts):
             continue
-        if g.general_position():
-            continue          # no edge through a corner
+        if g.general_position() == want_corner:
+            continue          # want_corner: some edge through a corner; otherwise: general position (same exact family)
         return g
     return None
 
@@ -1189,12 +1331,12 @@ def online_geometries(rng, count):
     return res
 
 
-def corner_geometries(rng, count):
+def corner_geometries(rng, count, want_corner=True):
     res = []
     tries = 0
     while len(res) < count and tries < 40 * count:
         tries += 1
-        g = corner_geometry(rng)
+        g = corner_geometry(rng, want_corner)
         if g is None:
             continue
         rot = rng.randrange(len(g.segs))
@@ -1460,6 +1602,17 @@ def run(tier, seed):
                   "`overlappingGrid` vs independent evaluation", shift_grid_tie(shg, "grisubal")))
     parts.append(("origin-shift loop: grisubal on the shifted polygons that are in general position w.r.t. the FINAL grid (in scope, exact oracle)",
                   gg.impl_campaign(shift_cases([g for g in shg if g.general_position()]), oracle)))
+    zp = []
+    for z in (zonogon_geometry(rng) for _ in range(25 * mult)):
+        if z:
+            sg = z.segs[:]
+            rng.shuffle(sg)
+            zp.append((z, sg))
+    parts.append(("whole pipeline hook by hook (segments, slots, darts, edge data, insert_edges, clip), model vs implementation, and = the "
+                  "end-to-end call up to renumbering: zonogons + non-convex exact polygons in general position",
+                  pipeline5_tie(zp + corner_geometries(rng, 25 * mult, want_corner=False), False, "pipe")))
+    parts.append(("whole pipeline hook by hook: polygons with an edge through a grid corner (outside general position: correspondence only)",
+                  pipeline5_tie(corner_geometries(rng, 25 * mult), False, "pipe-corner")))
     parts.append(("steps 2 + 3 direct (hook intersection_darts): ids + map after insertion, model vs implementation, + hook-level oracle",
                   steps23_tie(rng, 800 * mult)))
     parts.append(("edges through grid corners (outside general position: steps 1-3, model vs implementation only)",
